@@ -102,7 +102,7 @@ def Step.touchesFs : Step → Bool
 
 /-- results held in local variables of `_write_from_structure` -/
 structure Mem where
-  /-- serialised sections so far, header first -/
+  /-- serialised sections so far, **latest first** (the header is the last entry) -/
   parts : List Bytes
   /-- `compressed` -/
   compressed : Option Bytes
@@ -126,18 +126,18 @@ def stepSem (c : Cfg) : Step → St → Except Err St
   | .filename, st => .ok st
   | .xsValidate, st => .ok st
   | .commit _, st => .ok st
-  | .serialise b, st => .ok { st with mem := { st.mem with parts := st.mem.parts ++ [b] } }
+  | .serialise b, st => .ok { st with mem := { st.mem with parts := b :: st.mem.parts } }
   | .compress, st =>
-      match st.mem.parts with
+      match st.mem.parts.reverse with
       | [] => .error .internal
       | _ :: rest => .ok { st with mem := { st.mem with compressed := some (c.deflate rest.flatten) } }
   | .openWrite, st =>
-      match st.mem.parts, st.mem.compressed with
+      match st.mem.parts.reverse, st.mem.compressed with
       | h :: _, some z => .ok { st with fs := st.fs.put c.dest (payload h z) }
       | _, _ => .error .internal
   | .openTrunc, st => .ok { st with fs := st.fs.put c.dest [] }
   | .writeOpened, st =>
-      match st.mem.parts, st.mem.compressed with
+      match st.mem.parts.reverse, st.mem.compressed with
       | h :: _, some z => .ok { st with fs := st.fs.put c.dest (payload h z) }
       | _, _ => .error .internal
 
